@@ -150,7 +150,7 @@ struct Gen {
             long fl = rbits(pf.src_flag_bits, 0.25);
             bool bad = pf.bad_params && r.chance(0.06);
             switch (kind) {
-            case 0: p.add(where, reg ? "src_fd" : "unsrc_fd", {rmod(), (long)r.below(3), fl | (bad ? 16 : 0)}); break;
+            case 0: p.add(where, reg ? "src_fd" : "unsrc_fd", {rmod(), (long)r.below(3), (camp == "C09" ? (fl & ~4L) : fl) | (bad ? 16 : 0)}); break;
             case 1: {
                 long ki = camp == "C09" ? (long)r.below(TMR_NS_POOL_N) : (long)r.range(2, 8);
                 if (camp == "C03" || camp == "C04" || camp == "C20") ki = (long)r.range(1, 8);
